@@ -80,12 +80,13 @@ func (h *Authorization) Unmarshal(v base.HeaderValue) error {
 			return fmt.Errorf("invalid value")
 		}
 
-		tmp2 := strings.Split(string(tmp), ":")
-		if len(tmp2) != 2 {
+		// the user name cannot contain a colon, the password can (RFC 7617, section 2)
+		user, pass, ok := strings.Cut(string(tmp), ":")
+		if !ok {
 			return fmt.Errorf("invalid value")
 		}
 
-		h.Username, h.BasicPass = tmp2[0], tmp2[1]
+		h.Username, h.BasicPass = user, pass
 	} else { // digest
 		kvs, err := keyValParse(v0, ',')
 		if err != nil {
